@@ -21,7 +21,7 @@ def sim_spec(rng):
     return spec
 
 
-def compare_exact(rec, base_b, base_E, other_b, other_E, ctx, name_map=None, frozen_tol=1e-9):
+def compare_exact(rec, base_b, base_E, other_b, other_E, ctx, name_map=None, frozen_tol=1e-5):
     """Same variable set (under name_map) and equal exact solutions for every k>=0."""
     nm = name_map or (lambda n: n)
     a_names = set(base_E.names)
@@ -59,7 +59,7 @@ class C08(object):
             'multi-output firm that lists them, treasury before the central bank that is handed it), with the external '
             'sector created before or after the countries; every build is solved by the real main() and its emitted text '
             're-solved exactly; variable sets must be equal and the exact solutions equal as rationals for all k>=0 '
-            '(1e-9 relative when a Tobin weight had to be frozen); a permuted build that raises while the canonical one '
+            '(1e-5 relative when a Tobin weight had to be frozen: the pinned value carries the solver tolerance); a permuted build that raises while the canonical one '
             'solves is a violation; thorough additionally enumerates ALL 720 orders of the six SIM declarations; '
             'distinct = hash of (spec, orders); non-trivial = >= 2 distinct orders compared')
     assumptions = ['country order and Region default-currency inheritance are documented order dependence and fixed',
